@@ -116,14 +116,22 @@ pub fn cfg_of_opts(opts: &[(String, Value)]) -> Value {
     Value::Object(root)
 }
 
-/// "cfg[a.b=1,c.d=Omit]" or "default"
+/// "cfg[a.b<4,c.d=Omit]" or "default": enumerations and booleans by value, numbers by their side of the default value
 pub fn opts_label(opts: &[(String, Value)]) -> String {
     if opts.is_empty() {
         return "default".to_string();
     }
+    let dflt = serde_json::to_value(LuaFormatConfig::default()).unwrap_or(json!({}));
     let parts: Vec<String> = opts
         .iter()
-        .map(|(k, v)| format!("{}={}", k, match v { Value::String(s) => s.clone(), other => other.to_string() }))
+        .map(|(k, v)| {
+            let (sec, key) = k.split_once('.').unwrap_or((k.as_str(), ""));
+            let d = dflt.get(sec).and_then(|x| x.get(key));
+            match (v.as_u64(), d.and_then(|x| x.as_u64())) {
+                (Some(n), Some(dn)) => format!("{}{}{}", k, if n < dn { "<" } else { ">" }, dn),
+                _ => format!("{}={}", k, match v { Value::String(s) => s.clone(), other => other.to_string() }),
+            }
+        })
         .collect();
     format!("cfg[{}]", parts.join(","))
 }
